@@ -26,9 +26,12 @@ void h_collect_void(void) { REG_STATE(); MK_COLL(c); SP *r; co_call_void(r, c); 
 void h_em_ready(void) { em_ready(); SENT(1, "after await_ready"); }
 #endif
 #ifdef CV_HAS_em_suspend
-void h_em_suspend(void) { REG_STATE(); MK_EMIT(e); gh_my_node = EM_NODE(e); gh_node_own = OWN_ME; cv_i8 *h; cv_i1 r = em_suspend(e, h);
-  SENT(r && gh_sg_disposed == 0, "subscribed, state stays alive"); SENT(r && gh_sg_disposed == 1, "subscribed, own reference became the last: released at once");
-  SENT(!r && WP_PI(&e->_wk_state) == 0, "never connected: not suspended"); SENT(!r && WP_PI(&e->_wk_state) != 0, "disconnected: not suspended"); }
+void h_em_suspend(void) { REG_STATE(); MK_EMIT(e); gh_my_node = EM_NODE(e); gh_node_own = OWN_ME; gh_em_connected = (WP_PI(&e->_wk_state) != 0); cv_i8 *h; cv_i1 r = em_suspend(e, h);
+  SENT(r && gh_sg_disposed == 0 && !gh_node_freed, "subscribed, state stays alive"); SENT(r && gh_sg_disposed == 1, "subscribed, own reference became the last: released at once");
+#ifdef CV_HAS_aw_subscribe_abs
+  SENT(r && gh_node_freed, "subscribed, resumed and finished on the emitting thread before await_suspend returned (emitter already destroyed)");
+#endif
+  SENT(!r && !gh_em_connected, "never connected: not suspended"); SENT(!r && gh_em_connected, "disconnected: not suspended"); }
 #endif
 #ifdef CV_HAS_em_resume
 void h_em_resume(void) { REG_STATE(); MK_EMIT(e); gh_my_node = 0; gh_node_own = OWN_NONE; em_resume(e);
@@ -77,4 +80,8 @@ void h_hue_suspend(void) { gh_sg_blk = 0; gh_S_slot = 0; HUE *e = malloc(sizeof(
 void h_hue_suspend_again(void) { REG_STATE(); HUE *e = malloc(sizeof(HUE)); __CPROVER_assume(e != 0); gh_emit_obj = &e->base_emitter; gh_my_node = EM_NODE(&e->base_emitter); gh_node_own = OWN_ME;
   WP_PI(&e->base_emitter._wk_state) = (void *)blk; WP_PTR(&e->base_emitter._wk_state) = &blk->obj; cv_i8 *h; cv_i1 r = hue_suspend_again(e, h);
   SENT(r, "subscribed"); SENT(!r, "disconnected: not suspended"); }
+#endif
+#ifdef CV_HAS_aw_subscribe_u
+void h_aw_subscribe(void) { REG_STATE(); AWT *n = malloc(sizeof(AWT)); __CPROVER_assume(n != 0); gh_my_node = n; gh_node_own = OWN_ME; gh_push_handle = n->_handle_addr; gh_push_fn = (void *)n->_resume_fn;
+  aw_subscribe(n, (ATOMAW *)&blk->obj._chain); SENT(gh_push_seen == 0, "first listener of the chain"); SENT(gh_push_seen != 0, "pushed on top of other listeners"); }
 #endif
